@@ -19,6 +19,7 @@ import (
 	"fmt"
 	internal "github.com/flanglet/kanzi-go/v2/internal"
 	"math/bits"
+	"strings"
 )
 
 const (
@@ -233,7 +234,7 @@ func NewTPAQPredictor(ctx *map[string]any) (*TPAQPredictor, error) {
 				return nil, fmt.Errorf("TPAQ predictor: invalid entropy parameter type")
 			}
 
-			this.extra = codec == "TPAQX"
+			this.extra = strings.ToUpper(codec) == "TPAQX"
 		}
 
 		if this.extra == true {
